@@ -87,8 +87,14 @@ class AGen(VGen):
         if k == "typeddict":
             reqs = [r.random() < 0.6 for _ in range(n)]
             style = r.choice([0, 1])
-            return {"a": "typeddict", "cls": {"id": self.cid(), "kind": 4, "hashable": False, "slots": False},
-                    "names": names, "anns": anns, "reqs": reqs, "style": style}
+            out = {"a": "typeddict", "cls": {"id": self.cid(), "kind": 4, "hashable": False, "slots": False},
+                   "names": names, "anns": anns, "reqs": reqs, "style": style}
+            if n and r.random() < 0.3:
+                # the first `inherit` keys come from a base TypedDict whose totality (`base_total`) is drawn
+                # independently of the class's own (`style`)
+                out["inherit"] = r.randint(1, n)
+                out["base_total"] = r.random() < 0.5
+            return out
         ndef = r.choice([0, 0, 1, n]) if n else 0
         dflts: List[Any] = [None] * (n - min(ndef, n))
         for a in anns[n - min(ndef, n):]:
@@ -96,7 +102,7 @@ class AGen(VGen):
         kind = 1 if k == "dataclass" else 2
         c = {"id": self.cid(), "kind": kind, "hashable": kind == 2, "slots": kind == 1 and r.random() < 0.15}
         out = {"a": k, "cls": c, "names": names, "anns": anns, "dflts": dflts}
-        if kind == 1 and n and not c["slots"] and r.random() < 0.25:
+        if kind == 1 and n and r.random() < 0.25:
             out["inherit"] = r.randint(1, n)       # the first `inherit` fields are declared by a base dataclass and inherited
         return out
 
@@ -300,9 +306,9 @@ def build_ann(ctx: wire.Ctx, a: dict, rng: random.Random) -> Any:
                     specs.append((n, an, dataclasses.field(default=dv)))
         nb = a.get("inherit", 0)
         if nb:
-            base = dataclasses.make_dataclass(name + "Base", specs[:nb])
+            base = dataclasses.make_dataclass(name + "Base", specs[:nb], slots=a["cls"]["slots"])
             ctx.keep.append(base)
-            cls: Any = dataclasses.make_dataclass(name, specs[nb:], bases=(base,))
+            cls: Any = dataclasses.make_dataclass(name, specs[nb:], bases=(base,), slots=a["cls"]["slots"])
         else:
             cls = dataclasses.make_dataclass(name, specs, slots=a["cls"]["slots"])
     elif k == "namedtuple":
@@ -319,12 +325,23 @@ def build_ann(ctx: wire.Ctx, a: dict, rng: random.Random) -> Any:
         exec(compile(f"class {name}(NamedTuple):\n" + ("\n".join(lines) or "    pass") + "\n", "<nt>", "exec", dont_inherit=True), env, ns)
         cls = ns[name]
     else:
-        if a.get("style", 0) == 0:
-            ta = {n: (an if r else _fresh(typing.NotRequired)[an]) for n, an, r in zip(a["names"], anns, a["reqs"])}
-            cls = typing.TypedDict(name, ta)  # type: ignore
+        def td_fields(lo: int, hi: int, total: bool) -> Dict[str, Any]:
+            # requiredness as described, written the way a class of this totality has to write it
+            if total:
+                return {n: (an if r else _fresh(typing.NotRequired)[an])
+                        for n, an, r in list(zip(a["names"], anns, a["reqs"]))[lo:hi]}
+            return {n: (_fresh(typing.Required)[an] if r else an)
+                    for n, an, r in list(zip(a["names"], anns, a["reqs"]))[lo:hi]}
+        own_total = a.get("style", 0) == 0
+        nb = a.get("inherit", 0)
+        if nb:
+            import types as _types
+            base = typing.TypedDict(name + "Base", td_fields(0, nb, a["base_total"]), total=a["base_total"])  # type: ignore
+            ctx.keep.append(base)
+            own = td_fields(nb, len(anns), own_total)
+            cls = _types.new_class(name, (base,), {"total": own_total}, lambda ns: ns.update({"__annotations__": own}))
         else:
-            ta = {n: (_fresh(typing.Required)[an] if r else an) for n, an, r in zip(a["names"], anns, a["reqs"])}
-            cls = typing.TypedDict(name, ta, total=False)  # type: ignore
+            cls = typing.TypedDict(name, td_fields(0, len(anns), own_total), total=own_total)  # type: ignore
     ctx.cls_by_id[cid] = cls
     ctx.cls_desc[id(cls)] = wire.cls_key(a["cls"])
     ctx.keep.append(cls)
@@ -333,7 +350,7 @@ def build_ann(ctx: wire.Ctx, a: dict, rng: random.Random) -> Any:
 
 def strip_priv(a: Any) -> Any:
     if isinstance(a, dict):
-        return {k: strip_priv(v) for k, v in a.items() if not k.startswith("_") and k not in ("bar", "style", "inherit")}
+        return {k: strip_priv(v) for k, v in a.items() if not k.startswith("_") and k not in ("bar", "style", "inherit", "base_total")}
     if isinstance(a, list):
         return [strip_priv(x) for x in a]
     return a
